@@ -344,3 +344,21 @@ func (server *SugarDB) verifPubSubTable() []string {
 	sort.Strings(out)
 	return out
 }
+
+// VerifCommandCategories returns the ACL categories of a command (and of its subcommand when cmd names one)
+// together with the name the ACL uses for it ("cmd" or "cmd|sub").
+func (server *SugarDB) VerifCommandCategories(cmd []string) (string, []string) {
+	c, err := server.getCommand(cmd[0])
+	if err != nil {
+		return "", nil
+	}
+	name := c.Command
+	cats := append([]string{}, c.Categories...)
+	if sc, err := internal.GetSubCommand(c, cmd); err == nil {
+		if s, ok := sc.(internal.SubCommand); ok {
+			name = c.Command + "|" + s.Command
+			cats = append(cats, s.Categories...)
+		}
+	}
+	return name, cats
+}
